@@ -172,11 +172,19 @@ class C12(Prop):
             pool.run(pool.pending().index((f, fn, args, kw)))
 
         def poll():
+            # what the agent has recorded as its configuration (installed, or being installed by a task on its way) is
+            # what it has to report - whatever the last answers of the service looked like
+            recorded = w.cfg.tracepoints.current_hash or ''
+            n_req = len(w.requests)
             try:
                 w.poll.poll()
                 return None
             except BaseException as e:      # noqa
                 return e
+            finally:
+                if len(w.requests) > n_req and (w.requests[-1].current_hash or '') != recorded:
+                    out.violate('poll reported a hash that is not the hash of the configuration the agent has recorded',
+                                {'reported': w.requests[-1].current_hash, 'recorded': recorded})
 
         def do_update(kind, op):
             nonlocal n_upd, latest, latest_hash, err_since_update, updates_seen
@@ -292,7 +300,8 @@ class C12(Prop):
                 pass
             elif kind == 'nochange':
                 before = (w.cfg.tracepoints.current_hash, len(pending()))
-                w.script = [PollResponse(ts_nanos=99, current_hash=latest_hash or '',
+                # (a service that has nothing new may or may not repeat the hash in its answer)
+                w.script = [PollResponse(ts_nanos=99, current_hash=(latest_hash or '') if step % 2 else '',
                                          response_type=ResponseType.NO_CHANGE)]
                 e = poll()
                 if e is not None:
